@@ -1,9 +1,7 @@
 SPECIFICATION Spec
-CONSTANTS MaxRuns = 2 MaxTouch = 2
-  Scens <- ScenExpB
-  Settings <- SettingsQuick
+CONSTANTS
+  Plans <- PlansThoroughExport1
   CreatedSetsChanged = TRUE
-  Reuses = {FALSE, TRUE}
   AutoReload = TRUE
   KeepHistory = TRUE
 INVARIANT Emitted
